@@ -34,7 +34,7 @@ MANIFEST = dict(
     technique="Lean 4 proofs (closed form of a fold over association lists, override lemma, round trip) + "
               "differential correspondence check on histories",
 )
-PROP_FILES = ["HtmlVerif/Props/C15.lean", "HtmlVerif/Props/SrcAttrs.lean"]
+PROP_FILES = ["HtmlVerif/Props/C15.lean", "HtmlVerif/Props/SrcAttrs.lean", "HtmlVerif/Props/SrcC15b.lean"]
 
 NAMES = ["x", "x_", "x__", "a_b", "a-b", "_", "class_"]
 VALUES = [("str", "v"), ("str", ""), ("html", "h"), ("true",), ("false",), ("none",), ("num", "0"), ("num", "1.5"),
@@ -304,5 +304,6 @@ def run(tier: str) -> int:
         # implementation's answer, which no model answer equals
         ck.add(l, im, nontrivial=nt, tag=tag)
     ck.add_src(['normalize_attr_name', 'normalize_attr_value', 'TagAttrDict_update', 'TagAttrDict_setitem'])
+    ck.add_src(['TagAttrDict_initC15b', 'Tag_initC15b', 'Tag_insertC15b', 'Tag_extendC15b', 'Tag_appendC15b', 'consolidate_attrsC15b'])
     ck.correspond(holds=True)
     return ck.finish(shrink=describe(ck))
